@@ -44,9 +44,10 @@ def bundle_type(n_ring, nd=1, P=0.0065, D=0.0055, Dw=0.0009, Pw=0.20,
     inner = S3 * (n_ring - 1) * P + D + 2 * Dw + clearance
     ftf = []
     x = inner
+    walls = list(wall) if isinstance(wall, (list, tuple)) else [wall] * nd
     for i in range(nd):
-        ftf += [x, x + 2 * wall]
-        x = x + 2 * wall + 2 * byp
+        ftf += [x, x + 2 * walls[i]]
+        x = x + 2 * walls[i] + 2 * byp
     if ftf_outer is not None:
         # shift all walls outward by the same amount (more clearance)
         shift = ftf_outer - ftf[-1]
